@@ -11,6 +11,9 @@ def run(ctx):
                       timeout=2400, label="Lexer: PrintFormReadsBack, NoteFixpoint")
     common.replay_layer(ctx, "MC_Reporters.tla", "MC_Reporters_quick.cfg" if q else "MC_Reporters_thorough.cfg", "print-replay", "print",
                         args={"stride": 1}, workers=10, heap="3g", env_extra={"VERIF_BIN": ctx.build_binary()})
+    # days of up to 14 lines in which foods repeat (the first food again at the end): merged once, as Trace_Reporters.tla says
+    common.trace_layer(ctx, "reporters-trace", "Trace_Reporters.tla", "Trace_Reporters.cfg", "reporters", "reporters-trace-rejected",
+                       {"logs": 150 if q else 3000}, "node.go")
     # decimal quantities: rounded to two decimals on the way through print
     res = ctx.drv("print-decimal", outfile=ctx.scratch + "/pd_mm.ndjson", args={"files": 300 if q else 5000})
     ctx.add("evaluations", res["runs"])
